@@ -219,7 +219,7 @@ TABLE["C13"] = {
 # whose theorems are proof obligations of a property
 TIES = {
     "C01": ["X86", "Install"], "C13": ["X86"], "C10": ["X86", "Install"], "C11": ["Alloc"], "C12": ["Alloc", "Install"],
-    "C02": ["Install"], "C03": ["Install"], "C17": ["Install"], "C15": ["A64"],
+    "C02": ["Install"], "C03": ["Install"], "C17": ["Install"], "C15": ["A64"], "C16": ["A32"],
 }
 
 # which properties a translator item matters to (prefix of "File.name" -> property ids); used to
